@@ -682,20 +682,31 @@ func (m *Machine) step(co *coroutine) stepResult {
 
 	case *ssa.IndexAddr:
 		x := m.get(fr, instr.X)
+		idx := m.get(fr, instr.Index)
+		var cells []value
 		switch x := x.(type) {
 		case []value:
-			i := m.indexIn(m.get(fr, instr.Index), instr.Index.Type(), len(x))
-			m.set(fr, instr, &x[i])
+			cells = x
 		case *value:
 			if x == nil {
 				m.rtPanic("invalid memory address or nil pointer dereference")
 			}
-			a := (*x).(array)
-			i := m.indexIn(m.get(fr, instr.Index), instr.Index.Type(), len(a))
-			m.set(fr, instr, &a[i])
+			cells = []value((*x).(array))
 		default:
 			m.unsupported("IndexAddr on %T", x)
 		}
+		if it, ok := idx.(*term.Term); ok && len(cells) > 1 && len(cells) <= 4096 {
+			if w, isInt := elemWidth(deref(instr.Type())); isInt && allScalar(cells) {
+				_, signed, _ := intInfo(instr.Index.Type())
+				if !m.branch(boolVal(m.inRange(it, signed, len(cells)))) {
+					m.rtPanic(fmt.Sprintf("index out of range [symbolic] with length %d", len(cells)))
+				}
+				m.set(fr, instr, &symElem{cells: cells, idx: it, w: w})
+				break
+			}
+		}
+		i := m.indexIn(idx, instr.Index.Type(), len(cells))
+		m.set(fr, instr, &cells[i])
 
 	case *ssa.Index:
 		x := m.get(fr, instr.X)
@@ -1032,6 +1043,13 @@ func (m *Machine) inRange(x *term.Term, signed bool, n int) *term.Term {
 	if n <= 0 {
 		return m.F.False()
 	}
+	if x.W < 64 && uint64(n) > mask(x.W) {
+		if signed {
+			// only the non-negative half can be in range
+			return m.F.Cmp(term.OpSle, m.F.Const(x.W, 0), x)
+		}
+		return m.F.True()
+	}
 	c := m.F.Cmp(term.OpUlt, x, m.F.Const(x.W, uint64(n)))
 	_ = signed // unsigned compare also excludes negative values of signed ints
 	return c
@@ -1057,6 +1075,87 @@ func (m *Machine) indexLoad(cells []value, idx value, t types.Type) value {
 		}
 	}
 	return cells[m.indexIn(idx, t, len(cells))]
+}
+
+func elemWidth(t types.Type) (int, bool) {
+	if isBoolT(t) {
+		return 0, true
+	}
+	w, _, ok := intInfo(t)
+	return w, ok
+}
+
+func allScalar(cells []value) bool {
+	for _, c := range cells {
+		switch c.(type) {
+		case uint64, bool, *term.Term:
+		default:
+			return false
+		}
+	}
+	return true
+}
+
+// symLoad builds the ite chain for cells[idx]; equal concrete values are grouped and the
+// most frequent one becomes the default arm.
+func (m *Machine) symLoad(p *symElem) value {
+	F := m.F
+	count := map[uint64]int{}
+	for _, c := range p.cells {
+		switch c := c.(type) {
+		case uint64:
+			count[c]++
+		case bool:
+			if c {
+				count[1]++
+			} else {
+				count[0]++
+			}
+		}
+	}
+	var defv uint64
+	best := -1
+	for v, n := range count {
+		if n > best || (n == best && v < defv) {
+			best, defv = n, v
+		}
+	}
+	var acc *term.Term
+	if p.w == 0 {
+		acc = F.Bool(defv != 0)
+	} else {
+		acc = F.Const(p.w, defv)
+	}
+	if best < 0 {
+		acc = m.toTerm(p.cells[len(p.cells)-1], p.w)
+	}
+	for i := len(p.cells) - 1; i >= 0; i-- {
+		c := p.cells[i]
+		var ct *term.Term
+		switch c := c.(type) {
+		case uint64:
+			if best >= 0 && c == defv {
+				continue
+			}
+			ct = F.Const(p.w, c)
+		case bool:
+			var u uint64
+			if c {
+				u = 1
+			}
+			if best >= 0 && u == defv {
+				continue
+			}
+			ct = F.Bool(c)
+		case *term.Term:
+			ct = c
+		}
+		acc = F.Ite(F.Eq(p.idx, F.Const(p.idx.W, uint64(i))), ct, acc)
+	}
+	if p.w == 0 {
+		return boolVal(acc)
+	}
+	return intVal(acc)
 }
 
 // scalarWidth reports whether all cells are integers (same width unknown: use
